@@ -77,7 +77,7 @@ def exhaustive_cases(ctx, limit):
 
 def run(ctx):
     g = qgen.Gen(ctx.rng)
-    n = 4000 if ctx.tier == 'quick' else 120000
+    n = 4000 if ctx.tier == 'quick' else 500000
     cases = [gen_case(ctx, g) for _ in range(n)]
     cases += exhaustive_cases(ctx, 2500 if ctx.tier == 'quick' else None)
     ctx.rule = ('pairs of tables (empty, duplicate keys, ragged A and B) x all five join spellings x 1-3 key pairs (== or =, either side order, NR/aNR/a.NR and bNR/b.NR) '
